@@ -475,7 +475,104 @@ func streamCompact(c *Ctx) {
 	}
 }
 
+// nilVsEmpty: a nil slice and an empty non-nil slice are the same input
+func (c *Ctx) nilVsEmpty() {
+	c.oracle()
+	type pair struct {
+		name string
+		a, b string
+	}
+	txsOut := func(t [][]byte, err error) string { return fmt.Sprint(len(t), err == nil, t == nil || len(t) == 0) }
+	var ps []pair
+	{
+		a, ea := share.ParseTxs(nil)
+		b, eb := share.ParseTxs([]share.Share{})
+		ps = append(ps, pair{"ParseTxs", txsOut(a, ea), txsOut(b, eb)})
+	}
+	{
+		a, ea := share.ParseBlobs(nil)
+		b, eb := share.ParseBlobs([]share.Share{})
+		ps = append(ps, pair{"ParseBlobs", fmt.Sprint(len(a), ea == nil), fmt.Sprint(len(b), eb == nil)})
+	}
+	{
+		a, ea := share.ParseShares(nil, true)
+		b, eb := share.ParseShares([]share.Share{}, true)
+		ps = append(ps, pair{"ParseShares", fmt.Sprint(len(a), ea == nil), fmt.Sprint(len(b), eb == nil)})
+	}
+	{
+		a := share.GetShareRangeForNamespace(nil, share.TxNamespace)
+		b := share.GetShareRangeForNamespace([]share.Share{}, share.TxNamespace)
+		ps = append(ps, pair{"GetShareRangeForNamespace", fmt.Sprint(a), fmt.Sprint(b)})
+	}
+	{
+		w1 := share.NewCompactShareSplitter(share.TxNamespace, 0)
+		_ = w1.WriteTx(nil)
+		s1, e1 := w1.Export()
+		w2 := share.NewCompactShareSplitter(share.TxNamespace, 0)
+		_ = w2.WriteTx([]byte{})
+		s2, e2 := w2.Export()
+		ps = append(ps, pair{"WriteTx(nil) / WriteTx(empty)", fmt.Sprint(e1 == nil, digList(sharesToBytes(s1))), fmt.Sprint(e2 == nil, digList(sharesToBytes(s2)))})
+	}
+	for _, p := range ps {
+		if p.a != p.b {
+			c.violate("C16", "", p.name+" treats a nil slice and an empty slice differently: "+p.a+" vs "+p.b, "", nil)
+			c.violate("C09", "", p.name+" treats a nil slice and an empty slice differently: "+p.a+" vs "+p.b, "", nil)
+		}
+	}
+}
+
 func streamCHist(c *Ctx) {
+	c.nilVsEmpty()
+	// two splitters created from the SAME namespace value, written alternately: each exports what a lone
+	// splitter fed its own writes exports
+	for rep := 0; rep < c.n(40, 400); rep++ {
+		c.oracle()
+		nsb := append([]byte(nil), share.TxNamespace.Bytes()...)
+		if rep%2 == 1 {
+			nsb = append([]byte(nil), share.PayForBlobNamespace.Bytes()...)
+		}
+		nsv, _ := share.NewNamespaceFromBytes(nsb)
+		a, b := share.NewCompactShareSplitter(nsv, 0), share.NewCompactShareSplitter(nsv, 0)
+		var wa, wb [][]byte
+		for k := c.rng.Range(2, 8); k > 0; k-- {
+			t := c.payload(c.compactLen())
+			if len(t) == 0 {
+				continue
+			}
+			if c.rng.Bool() {
+				a.WriteTx(t)
+				wa = append(wa, t)
+			} else {
+				b.WriteTx(t)
+				wb = append(wb, t)
+			}
+			if c.rng.Chance(1, 4) {
+				a.Export()
+			}
+		}
+		sa, _ := a.Export()
+		sb, _ := b.Export()
+		for i, pr := range []struct {
+			got []share.Share
+			w   [][]byte
+		}{{sa, wa}, {sb, wb}} {
+			ref := share.NewCompactShareSplitter(share.TxNamespace, 0)
+			if rep%2 == 1 {
+				ref = share.NewCompactShareSplitter(share.PayForBlobNamespace, 0)
+			}
+			for _, t := range pr.w {
+				ref.WriteTx(t)
+			}
+			want, _ := ref.Export()
+			if digList(sharesToBytes(pr.got)) != digList(sharesToBytes(want)) {
+				c.violate("C14", "", fmt.Sprintf("splitter %d of two splitters created from the same namespace value exports different shares than a lone splitter fed the same %d writes", i, len(pr.w)), "", nil)
+				c.violate("C09", "", fmt.Sprintf("splitter %d of two splitters created from the same namespace value does not export the specified sequence of its %d writes", i, len(pr.w)), "", nil)
+			}
+		}
+		if !bytes.Equal(nsv.Bytes(), nsb) {
+			c.violate("C17", "", "a compact share splitter modified the namespace value it was created from", "", nil)
+		}
+	}
 	nh := c.n(2500, 20000)
 	for i := 0; i < nh; i++ {
 		c.newCase()
